@@ -180,7 +180,9 @@ class SimplePatternMatcher(PatternMatcher):
             # actual outputs of the candidate node, reject the node before even
             # trying to index into the list of node outputs.
             if i >= len(node.outputs):
-                return False
+                return self.fail(
+                    f"Number of outputs ({len(node.outputs)}) is less than expected ({len(pattern_node.outputs)})"
+                )
 
             if not self._match.bind_value(output_value_pattern, node.outputs[i]):
                 return False
